@@ -84,6 +84,13 @@ class Log:
 
     def add_service(self, zc: Any, type_: str, name: str) -> None:
         self.events.append(("add", type_, name))
+        if self.search.spawn and "spawned" not in self.search.browsers and len(self.events) >= self.search.spawn:
+            # an application that reacts to a discovery by browsing for something else (the usual "browse every type" tool):
+            # a browser for the other type is created from inside this callback
+            from zeroconf.asyncio import AsyncServiceBrowser
+            child = Log(self.w, zc, self.search)
+            self.search.browsers["spawned"] = (None, child)  # (marked first: the new browser may call back at once)
+            self.search.browsers["spawned"] = (AsyncServiceBrowser(zc, [self.search.ren.get(TB, TB)], listener=child), child)
         have = [r.alias.lower() for r in zc.cache.entries_with_name(type_) if r.type == 12]
         if name.lower() not in have:
             self.problems.append(f"add_service({name}) while no pointer record for it is cached under {type_}")
@@ -110,8 +117,15 @@ class Search:
         self.prefix = tuple(tuple(e) for e in prefix)  # events that happen before every explored history
         # '<variant>-cased': the browsed types are spelled with capitals, by the application and in every pointer record alike
         # (the owner name still is exactly a browsed type; the cache files it under its lower-cased spelling)
+        self.spawn = 0  # the running browser's listener starts another browser from inside its n-th callback (0: never)
+        if variant[:-1].endswith("-spawn"):
+            self.spawn = int(variant[-1])
+            variant = variant[:-7]
+        self.browsers: Dict[str, Tuple[Any, Log]] = {}
         self.ren = {TA: "_A-Type._TCP.local.", TB: "_B._Tcp.local."} if variant.endswith("-cased") else {}
         self.dgrams, self.steps, self.ops = alphabet(tier, variant[:-6] if self.ren else variant)
+        if self.spawn:
+            self.ops = [op for op in self.ops if op[1] == "a"]  # (the spawned browser is the one for the other type)
         if self.ren:
             self.dgrams = [[(e[0], self.ren.get(e[1], e[1])) + tuple(e[2:]) if e[0] == "PTR" else e for e in dg] for dg in self.dgrams]
         self.events = [("d", i) for i in range(len(self.dgrams))] + [("t", s) for s in self.steps] + list(self.ops)
@@ -144,6 +158,7 @@ class Search:
             zc = host.zc
             proto = host.protocol_for()
             browsers: Dict[str, Tuple[Any, Log]] = {}
+            self.browsers = browsers
             finished: List[Log] = []
             skipped = False
             for idx, ev in enumerate(hist):
@@ -152,7 +167,10 @@ class Search:
                     data = bytearray(wire.response(entries))
                     struct.pack_into(">H", data, 0, idx + 1)  # distinct bytes per occurrence (C16 owns the dup guard)
                     self.current = entries
-                    proto.datagram_received(bytes(data), ("10.0.0.77", 5353))
+                    try:
+                        proto.datagram_received(bytes(data), ("10.0.0.77", 5353))
+                    except Exception as e:  # noqa: BLE001
+                        problems.append(f"exception escaped datagram_received: {type(e).__name__}: {e}")
                     self.current = None
                     w.settle()
                 elif ev[0] == "t":
@@ -254,6 +272,12 @@ def run(tier: str, seed: int) -> Tuple[Stats, str, List[str], Dict[str, Any]]:
     bfs_histories(s_b.step, s_b.events, depth, stats, f"C04/{tier}/browsing", enabled=s_b.enabled, level_log=log_b,
                   max_states=None if tier == "quick" else 250000)
     stats.notes["levels_browsing"] = log_b
+    for nth in (1, 2):
+        s_s = Search(tier, f"core-spawn{nth}", prefix=(("start", "a"),))
+        log_s: List[Dict[str, int]] = []
+        bfs_histories(s_s.step, s_s.events, depth - 1, stats, f"C04/{tier}/browsing-spawning-{nth}", enabled=s_s.enabled,
+                      level_log=log_s, max_states=None if tier == "quick" else 250000)
+        stats.notes[f"levels_browsing_spawning_{nth}"] = log_s
     s_c = Search(tier, "core-cased" if tier == "quick" else "full-cased", prefix=(("start", "ab"),))
     log_c: List[Dict[str, int]] = []
     bfs_histories(s_c.step, s_c.events, depth - 1, stats, f"C04/{tier}/browsing-cased-types", enabled=s_c.enabled, level_log=log_c,
